@@ -581,3 +581,101 @@ Definition req_of (th : thread) : creq := match th with TRun q _ | THand q _ | T
 Definition creq_ok (q : creq) : bool := match q with CView l _ => nocolon l | _ => true end.
 Definition all_done (s : cstate) : bool :=
   forallb (fun t => match t with TDone _ _ => true | _ => false end) (cthr s).
+
+(* ------------------------------------------------------------------------------------------ *)
+(** * Vocabulary of deadlock freedom and termination *)
+
+(** The lock operation a running thread performs next (none for every other kind of step). *)
+Definition act_of (lv : level) (ph : phase) : lock_act :=
+  match ph with
+  | PRLock => ARLock (lock_of lv)
+  | PLock => ALock (lock_of lv)
+  | _ => ANone
+  end.
+Definition next_act (t : thread) : lock_act :=
+  match top t with Some (lv, ph) => act_of lv ph | None => ANone end.
+
+(** The next step of the thread is Lock() on mutex [lk]: it is, or is about to become, a pending
+    writer. *)
+Definition wantsW (lk : nat) (t : thread) : bool :=
+  match top t with
+  | Some (lv, PLock) => Nat.eqb (lock_of lv) lk
+  | _ => false
+  end.
+
+(** Writer preference of sync.RWMutex: a Lock() that has been called and is waiting for the
+    readers to drain blocks every NEW RLock().  Which of the threads standing at [PLock] have
+    already called Lock() is not determined by the program counters, so it is a parameter
+    [pend : thread index -> bool]: RLock by thread [t] is refused when another thread [i] with
+    [pend i] stands at [PLock] of that mutex.  [pend = fun _ => false] is [cstep];
+    [pend = fun _ => true] is the most restrictive reading. *)
+Fixpoint pend_ok (pend : nat -> bool) (lk : nat) (t : nat) (i : nat) (l : list thread) : bool :=
+  match l with
+  | [] => true
+  | x :: l' => (Nat.eqb i t || negb (pend i && wantsW lk x)) && pend_ok pend lk t (S i) l'
+  end.
+
+Definition cstep_wp (pend : nat -> bool) (fl : flavour) (c : bool) (fs : tfs) (s : cstate) (t : nat)
+  : option cstate :=
+  match nth_error (cthr s) t with
+  | None => None
+  | Some th =>
+    match tstep fl c fs (cp s) th with
+    | None => None
+    | Some (p', th', a) =>
+      let enabled :=
+        match a with
+        | ANone => true
+        | ARLock lk => others_ok (fun o => negb (holdsW lk o)) t (cthr s) && pend_ok pend lk t 0 (cthr s)
+        | ALock lk => others_ok (fun o => negb (holdsW lk o) && negb (holdsR lk o)) t (cthr s)
+        end in
+      if enabled then Some {| cp := p'; cthr := set_nth t th' (cthr s) |} else None
+    end
+  end.
+
+Definition crun_wp_step pend fl c fs (s : cstate) (t : nat) : cstate :=
+  match cstep_wp pend fl c fs s t with Some s' => s' | None => s end.
+Definition crun_wp pend fl c fs (sched : list nat) (s : cstate) : cstate :=
+  fold_left (crun_wp_step pend fl c fs) sched s.
+
+(** Number of steps of a schedule that were actually taken (not skipped). *)
+Fixpoint csteps (fl : flavour) (c : bool) (fs : tfs) (sched : list nat) (s : cstate) : nat :=
+  match sched with
+  | [] => O
+  | t :: sched' =>
+    match cstep fl c fs s t with
+    | Some s' => S (csteps fl c fs sched' s')
+    | None => csteps fl c fs sched' s
+    end
+  end.
+
+(** Termination measure: an upper bound of the number of steps a thread can still take.  A
+    protocol instance at the level guarded by mutex [n] takes at most 7 steps of its own plus the
+    instance of the level below, 7 * (n + 1) in all. *)
+Definition phase_msr (n : nat) (ph : phase) : nat :=
+  match ph with
+  | PRLock => 7 + 7 * n
+  | PRead => 6 + 7 * n
+  | PReadU => 5 + 7 * n
+  | PRUnlock _ => 5 + 7 * n
+  | PLock => 4 + 7 * n
+  | PRecheck => 3 + 7 * n
+  | PCall => 2
+  | PBuild _ => 2
+  | PUnlock _ => 1
+  end%nat.
+Definition frame_msr (f : frame) : nat := phase_msr (lock_of (fst f)) (snd f).
+Fixpoint stack_msr (st : list frame) : nat :=
+  match st with [] => O | f :: st' => (frame_msr f + stack_msr st')%nat end.
+Definition thread_msr (t : thread) : nat :=
+  match t with
+  | TRun _ st => S (stack_msr st)
+  | THand _ _ => 1%nat
+  | TDone _ _ => O
+  end.
+Fixpoint total_msr (l : list thread) : nat :=
+  match l with [] => O | t :: l' => (thread_msr t + total_msr l')%nat end.
+
+(** What the finished threads hold, in thread order ([OPanic] for a thread that has not finished). *)
+Definition answers (s : cstate) : list obs :=
+  map (fun t => match t with TDone _ r => obs_of (cp s) r | _ => OPanic end) (cthr s).
